@@ -683,6 +683,42 @@ pub fn replay_conc(rep: &ConcReplay) -> i32 {
     }
 }
 
+/// Triage aid (not a verdict): run the scenario of a replay file with REAL threads on the REAL parking_lot locks
+/// (simulator switched off) many times; a deadlock shows as threads that never finish (watchdog).
+pub fn real_replay(rep: &ConcReplay, iterations: usize) -> i32 {
+    use std::sync::{Arc, Barrier};
+    println!("scenario: {}", rep.scenario.clients.iter().map(|c| c.iter().map(|(_, o)| o.brief()).collect::<Vec<_>>().join("; ")).collect::<Vec<_>>().join(" || "));
+    for it in 0..iterations {
+        // the set-up runs in pass-through mode on this thread
+        let prep = crate::engine::passthrough(|| prepare(1, 0, 0, &[], 0, 10_000, Some(&rep.scenario.setup)));
+        let world = prep.world.clone();
+        let n = rep.scenario.clients.len();
+        let barrier = Arc::new(Barrier::new(n));
+        let (tx, rx) = std::sync::mpsc::channel();
+        for ops in rep.scenario.clients.iter().cloned() {
+            let world = world.clone();
+            let barrier = barrier.clone();
+            let tx = tx.clone();
+            std::thread::spawn(move || {
+                barrier.wait();
+                for (label, op) in ops {
+                    let _ = crate::ops::exec(&world, label, &op);
+                }
+                let _ = tx.send(());
+            });
+        }
+        for _ in 0..n {
+            if rx.recv_timeout(std::time::Duration::from_secs(3)).is_err() {
+                println!("iteration {it}: the client threads did not finish within 3 s on the real locks: deadlock confirmed");
+                // the blocked threads cannot be joined
+                std::process::exit(1);
+            }
+        }
+    }
+    println!("{iterations} iterations finished; no hang on the real locks (the interleaving is not controlled here)");
+    0
+}
+
 pub fn runs_for(prop: &str, thorough: bool) -> u64 {
     if let Ok(v) = std::env::var("VERIF_RUNS") {
         if let Ok(n) = v.parse() {
